@@ -223,16 +223,20 @@ void Interpret::interp(ASTNode& n) {
                 if (isInitialized()) {
                     ASTNode const & asrt = **(n.children->begin());
                     LetRecords letRecords;
+                    // names given inside the term (:named) are kept only if the assertion is accepted
+                    std::size_t const namesBefore = main_solver->getTermNamesCount();
                     PTRef tr = parseTerm(asrt, letRecords);
-                    if (tr == PTRef_Undef)
+                    if (tr == PTRef_Undef) {
+                        main_solver->forgetTermNamesSince(namesBefore);
                         notify_formatted(true, "assertion returns an unknown sort");
-                    else {
+                    } else {
                         try {
                             main_solver->insertFormula(tr);
                             // recorded only once accepted: the index in `assertions` is the partition index of the formula
                             assertions.push(tr);
                             notify_success();
                         } catch (ApiException const & e) {
+                            main_solver->forgetTermNamesSince(namesBefore);
                             notify_formatted(true, e.what());
                         }
                     }
